@@ -123,6 +123,7 @@ pub fn sweep(layout: &Layout, alphabet: &[KeyCode], sc: &SweepCfg, sel: Props, i
   nodes.push(Node { snap: mapper.verif_snapshot(), mon: root_mon, parent: u32::MAX, via: None });
   queue.push_back(0);
   let mut transitions: u64 = 0;
+  let mut nontrivial_transitions: u64 = 0;
   let mut exhausted = true;
   let mut pvs: Vec<PV> = Vec::new();
   let mut steps_from: Vec<Step> = Vec::new();
@@ -195,7 +196,7 @@ pub fn sweep(layout: &Layout, alphabet: &[KeyCode], sc: &SweepCfg, sel: Props, i
       let fp = mapper.verif_fingerprint();
       let key = node_key(&fp, &mon);
       if nt {
-        stats.nontrivial_case(hash64(&(layout_hash, node_key(&"", &nodes[ni as usize].mon), ni, step_text(&st))));
+        nontrivial_transitions += 1;
       }
       if seen.insert(key) {
         if nodes.len() >= sc.cap_states {
@@ -210,6 +211,11 @@ pub fn sweep(layout: &Layout, alphabet: &[KeyCode], sc: &SweepCfg, sel: Props, i
   }
   stats.states += nodes.len() as u64;
   stats.transitions += transitions;
+  // every (state, event) transition of one sweep is distinct by construction; the same slice
+  // swept twice (same layout, alphabet, bound) is counted once
+  if nontrivial_transitions > 0 {
+    stats.nontrivial_slices.insert(hash64(&("sweep-slice", layout_hash, alphabet, sc.max_held)), nontrivial_transitions);
+  }
   if exhausted {
     stats.exhaustive_slices += 1;
   } else {
@@ -326,7 +332,7 @@ struct SweepCase {
   g: GenLayout,
 }
 
-struct Plan {
+pub struct Plan {
   families: Vec<(Family, bool /*allow absorbing*/, u32 /*weight*/)>,
   sweep_families: Vec<(Family, bool)>,
   catalogue_filter_nonabs: bool,
@@ -334,7 +340,7 @@ struct Plan {
   needs_norepeat: bool,
 }
 
-fn plan_for(id: u32) -> Plan {
+pub fn plan_for(id: u32) -> Plan {
   use Family::*;
   match id {
     1 | 2 | 19 => Plan {
@@ -383,17 +389,20 @@ fn plan_for(id: u32) -> Plan {
   }
 }
 
-fn gen_random_case(src: &mut Src, plan: &Plan, hist: &HistOpts) -> Option<MapperCase> {
+pub fn gen_random_case(src: &mut Src, plan: &Plan, hist: &HistOpts) -> Option<MapperCase> {
   let ws: Vec<u32> = plan.families.iter().map(|f| f.2).collect();
   let fi = src.weighted(&ws);
   let (fam, allow_abs, _) = plan.families[fi];
   let opts = LayoutOpts { allow_absorbing: allow_abs, max_alphabet: 8 };
-  let g = loaded(gen_family(src, fam, &opts))?;
-  let steps = gen_history(src, &g.alphabet, hist);
+  // scale diversity: now and then a wide layout and / or a crowd of held keys
+  let fam = if src.chance(if hist.marathon_taps > 0 { 60 } else { 4 }) { Family::Wide } else { fam };
+  let mut g = loaded(gen_family(src, fam, &opts))?;
+  let crowd = if hist.marathon_taps == 0 && src.chance(4) { add_crowd(src, &mut g) } else { vec![] };
+  let steps = gen_history_mixed(src, &g.layout, &g.alphabet, hist, &crowd);
   Some(MapperCase { layout: g.layout, alphabet: g.alphabet, steps, family: g.family })
 }
 
-fn case_relevant(plan: &Plan, l: &Layout) -> bool {
+pub fn case_relevant(plan: &Plan, l: &Layout) -> bool {
   (!plan.needs_absorbing || has_absorbing(l)) && (!plan.needs_norepeat || l.mappings.iter().any(is_norepeat)) && (!plan.catalogue_filter_nonabs || !has_absorbing(l))
 }
 
@@ -603,7 +612,7 @@ pub fn check(id: u32, cfg: &RunCfg, findings: &Findings) -> Report {
         return rep;
       }
     }
-    let hist = HistOpts { max_events: if quick { 40 } else { 150 }, max_held: 5, raw_percent: 6, release_all_percent: 2 };
+    let hist = HistOpts { max_events: if quick { 40 } else { 150 }, max_held: 5, raw_percent: 6, release_all_percent: 2, marathon_taps: 0 };
     let per_shard: u32 = if quick { 1_500 } else { 30_000 };
     let (st, fail) = run_prop(
       cfg,
@@ -615,7 +624,7 @@ pub fn check(id: u32, cfg: &RunCfg, findings: &Findings) -> Report {
       |src: &mut Src| {
         let e = &cat_ref[src.below(cat_ref.len())];
         let alphabet = catalogue_alphabet(src, &e.layout, 6, 4, 2);
-        let steps = gen_history(src, &alphabet, &hist);
+        let steps = gen_history_mixed(src, &e.layout, &alphabet, &hist, &[]);
         MapperCase { layout: e.layout.clone(), alphabet, steps, family: e.name.clone() }
       },
       |c: &MapperCase, stats: &mut Stats| match run_mapper_case(c, sel, stats, findings) {
@@ -634,7 +643,7 @@ pub fn check(id: u32, cfg: &RunCfg, findings: &Findings) -> Report {
   }
 
   // 4. random layouts x random histories
-  let hist = HistOpts { max_events: if quick { 40 } else { 150 }, max_held: 5, raw_percent: 6, release_all_percent: if matches!(id, 1 | 2 | 19) { 3 } else { 1 } };
+  let hist = HistOpts { max_events: if quick { 40 } else { 150 }, max_held: 5, raw_percent: 6, release_all_percent: if matches!(id, 1 | 2 | 19) { 3 } else { 1 }, marathon_taps: 0 };
   let per_shard: u32 = if quick { 20_000 } else { 200_000 };
   let plan_ref = &plan;
   let (st, fail) = run_prop(
@@ -643,7 +652,7 @@ pub fn check(id: u32, cfg: &RunCfg, findings: &Findings) -> Report {
     16,
     per_shard,
     64,
-    if quick { 200 } else { 460 },
+    if quick { 1000 } else { 1200 },
     |src: &mut Src| gen_random_case(src, plan_ref, &hist),
     |c: &Option<MapperCase>, stats: &mut Stats| {
       let c = match c {
@@ -673,6 +682,50 @@ pub fn check(id: u32, cfg: &RunCfg, findings: &Findings) -> Report {
     }
     return rep;
   }
+  // 5. marathons: few, very long typing runs (mostly on wide layouts) - memory effects such as
+  // bounded lists, caches and counters only show after hundreds of chord taps
+  let mhist = HistOpts { max_events: 0, max_held: 5, raw_percent: 0, release_all_percent: 0, marathon_taps: 400 };
+  let (st, fail) = run_prop(
+    cfg,
+    &format!("{}-marathon", name),
+    16,
+    if quick { 200 } else { 2_500 },
+    4_000,
+    9_000,
+    |src: &mut Src| gen_random_case(src, plan_ref, &mhist),
+    |c: &Option<MapperCase>, stats: &mut Stats| {
+      let c = match c {
+        Some(c) => c,
+        None => {
+          stats.discards += 1;
+          return Ok(());
+        }
+      };
+      if !case_relevant(plan_ref, &c.layout) {
+        stats.discards += 1;
+        return Ok(());
+      }
+      stats.label("marathon");
+      stats.count("marathon-events", c.steps.len() as u64);
+      match run_mapper_case(c, sel, stats, findings) {
+        Ok(facts) => {
+          if nontrivial_by_rule(id, &facts) {
+            stats.nontrivial_case(c.canonical_hash());
+          }
+          Ok(())
+        }
+        Err((_p, v)) => Err(v),
+      }
+    },
+  );
+  rep.stats.merge(st);
+  if let Some(f) = fail {
+    if let Some(c) = f.case {
+      report_failure(id, &mut rep, c, f.violation, findings);
+    }
+    return rep;
+  }
+  crate::fuzzstage::stage(&mut rep, cfg, "fz_mapper", id, 1_600_000, 700);
   rep.exhaustive = false;
   rep.assumptions = vec![
     "the physical key set is kept by the harness (press adds, release removes); release_all is followed by an all-released physical keyboard in these runs (unseen activity after release_all is covered by C06/C12)".to_string(),
